@@ -98,6 +98,34 @@ func Kernel1Q(o Opts) Scenario {
 	}}
 }
 
+// UnifiedKernel: a kernel on a unified device made of GPU 1 and GPU 2 (needs
+// Opts.GPUs >= 2): the driver sends one launch request per member GPU with a
+// work-group filter; with equal latencies both completions reach the driver in
+// the same cycle.
+func UnifiedKernel(o Opts) Scenario {
+	return Scenario{Name: "1thread-1queue-h2d-unified-kernel-d2h" + suffix(o), Opts: o, Threads: 1, Main: func(rt RT, o Opts) {
+		w := NewWorld(rt, o)
+		d := w.Driver
+		ctx := d.Init()
+		d.SelectGPU(ctx, d.CreateUnifiedGPU(ctx, []int{1, 2}))
+		buf := d.AllocateMemory(ctx, 16)
+		q := d.CreateCommandQueue(ctx)
+		in, want, out := make([]byte, 16), make([]byte, 16), make([]byte, 16)
+		for i := range in {
+			in[i] = byte(3*i + 1)
+			want[i] = in[i] + 5
+		}
+		h2d(w, q, "c0", buf, in)
+		// 8 work-groups of 2: the two 4-CU GPUs get work-groups [0,4) and [4,8)
+		d.EnqueueLaunchKernel(q, AddKernel, [3]uint32{16, 1, 1}, [3]uint16{2, 1, 1}, &KernelArgs{Buf: buf, N: 16, Add: 5})
+		d2h(w, q, "c9", out, buf)
+		w.Drain("main", q, "c0", "c9")
+		w.CheckOrder("q", []string{"c0", "c9"})
+		expect(w, "d2h-after-unified-kernel-after-h2d", out, want)
+		outcome(w, []*driver.Context{ctx}, []driver.Ptr{buf}, 16, fmt.Sprint(out))
+	}}
+}
+
 // TwoQueues: one thread, two queues of one context.
 func TwoQueues(o Opts) Scenario {
 	return Scenario{Name: "1thread-2queues" + suffix(o), Opts: o, Threads: 1, Main: func(rt RT, o Opts) {
@@ -207,6 +235,9 @@ func suffix(o Opts) string {
 	}
 	if o.GPUs > 1 {
 		s += fmt.Sprintf("-%dgpu-farflush%d", o.GPUs, o.FarFlushLatency)
+		if o.RspLatency != 1 {
+			s += fmt.Sprintf("-lat%d", o.RspLatency)
+		}
 	}
 	return s
 }
